@@ -16,7 +16,36 @@ import (
 
 // nonKeyReads lists what a generator body reads from its instruction beyond what the cache key (opcode and operand types) encodes.
 func nonKeyReads(pkg *packages.Package, body ast.Node, instrParam string) []string {
+	return instrReads(body, instrParam, func(path string) bool {
+		switch {
+		case path == "Op", strings.HasPrefix(path, "Op."):
+			return true
+		case strings.HasPrefix(path, "In.[].Type"), strings.HasPrefix(path, "Out.Type"):
+			return true
+		}
+		return false
+	})
+}
+
+// instrReads lists the selector chains rooted at the instruction variable that covered does not accept.
+func instrReads(body ast.Node, instrParam string, covered func(path string) bool) []string {
 	set := map[string]bool{}
+	// `for _, in := range instr.In`: the value variable stands for an element of that field
+	alias := map[string]string{}
+	ast.Inspect(body, func(n ast.Node) bool {
+		rs, ok := n.(*ast.RangeStmt)
+		if !ok || rs.Value == nil {
+			return true
+		}
+		if sel, ok := ast.Unparen(rs.X).(*ast.SelectorExpr); ok {
+			if id, ok := ast.Unparen(sel.X).(*ast.Ident); ok && id.Name == instrParam {
+				if v, ok := rs.Value.(*ast.Ident); ok {
+					alias[v.Name] = sel.Sel.Name + ".[]"
+				}
+			}
+		}
+		return true
+	})
 	ast.Inspect(body, func(n ast.Node) bool {
 		sel, ok := n.(*ast.SelectorExpr)
 		if !ok {
@@ -45,15 +74,20 @@ func nonKeyReads(pkg *packages.Package, body ast.Node, instrParam string) []stri
 			break
 		}
 		id, ok := root.(*ast.Ident)
-		if !ok || id.Name != instrParam {
+		if !ok {
+			return true
+		}
+		if pre, isAlias := alias[id.Name]; isAlias {
+			chain = append(strings.Split(pre, "."), chain...)
+		} else if id.Name != instrParam {
 			return true
 		}
 		path := strings.Join(chain, ".")
 		switch {
-		case path == "Op", strings.HasPrefix(path, "Op."):
-		case strings.HasPrefix(path, "In.[].Type"), strings.HasPrefix(path, "Out.Type"):
-		case path == "In" || path == "In.[]" || path == "Out":
+		case covered(path):
+		case path == "In" || path == "In.[]" || path == "Out" || path == "In.[].Type" || path == "Out.Type":
 			// prefixes of longer chains are visited separately
+			return true
 		default:
 			set[path] = true
 		}
@@ -100,21 +134,127 @@ func C05cache(p *load.Program, run *report.Run) {
 	keys := map[string]bool{}
 	if fdS != nil {
 		ast.Inspect(fdS.Body, func(n ast.Node) bool {
-			if ix, ok := n.(*ast.IndexExpr); ok && dispatch.TypedString(pkgS, ix.X) == "<map[string]*Circuit>" {
+			if ix, ok := n.(*ast.IndexExpr); ok && strings.HasPrefix(dispatch.TypedString(pkgS, ix.X), "<map[") && strings.HasSuffix(dispatch.TypedString(pkgS, ix.X), "]*Circuit>") {
 				keys[cx(ix.Index)] = true
 			}
 			return true
 		})
 	}
-	if len(keys) != 1 || !keys["instr.StringTyped()"] {
-		var ks []string
-		for k := range keys {
-			ks = append(ks, k)
+	// what the key encodes: the typed string (opcode and all operand/result types), or the fields a helper that
+	// builds the key from the instruction reads
+	covered := func(path string) bool {
+		switch {
+		case path == "Op", strings.HasPrefix(path, "Op."):
+			return true
+		case strings.HasPrefix(path, "In.[].Type"), strings.HasPrefix(path, "Out.Type"):
+			return true
 		}
-		sort.Strings(ks)
-		run.Notes = append(run.Notes, fmt.Sprintf("the streamer's circuit cache is keyed by %v, not by instr.StringTyped(); the cache-key rule is written for the typed key and was not applied", ks))
-		run.OK("stream-cache-key", "compiler/ssa.Program.Stream/cache-key", "", "other key in use; rule not applicable")
-		return
+		return false
+	}
+	if len(keys) != 1 || !keys["instr.StringTyped()"] {
+		// a key variable: find the call that builds it from the instruction
+		var keyPaths []string
+		resolved := false
+		if fdS != nil && len(keys) == 1 {
+			var kname string
+			for k := range keys {
+				kname = k
+			}
+			ast.Inspect(fdS.Body, func(n ast.Node) bool {
+				as, ok := n.(*ast.AssignStmt)
+				if !ok || len(as.Rhs) != 1 || len(as.Lhs) == 0 || cx(as.Lhs[0]) != kname {
+					return true
+				}
+				call, ok := as.Rhs[0].(*ast.CallExpr)
+				if !ok || len(call.Args) != 1 || cx(call.Args[0]) != "instr" {
+					return true
+				}
+				var id *ast.Ident
+				switch f := call.Fun.(type) {
+				case *ast.Ident:
+					id = f
+				case *ast.SelectorExpr:
+					id = f.Sel
+				}
+				if fn, ok := pkgS.TypesInfo.Uses[id].(*types.Func); ok {
+					if _, fd := declOf(p, fn); fd != nil && len(fd.Type.Params.List) == 1 && len(fd.Type.Params.List[0].Names) == 1 {
+						keyPaths = instrReads(fd.Body, fd.Type.Params.List[0].Names[0].Name, func(string) bool { return false })
+						resolved = true
+					}
+				}
+				return true
+			})
+		}
+		if !resolved {
+			var ks []string
+			for k := range keys {
+				ks = append(ks, k)
+			}
+			sort.Strings(ks)
+			run.Undecided("stream-cache-key", "compiler/ssa.Program.Stream/cache-key", "", fmt.Sprintf("the streamer's circuit cache is keyed by %v; how that key is built from the instruction was not recognised", ks))
+			return
+		}
+		run.Notes = append(run.Notes, fmt.Sprintf("the streamer's circuit cache key is built from instr.%s", strings.Join(keyPaths, ", instr.")))
+		covered = func(path string) bool {
+			for _, k := range keyPaths {
+				if path == k || strings.HasPrefix(path, k+".") {
+					return true
+				}
+			}
+			// the signedness of integer operations is part of the opcode
+			return false
+		}
+		// what the streamer itself reads from the instruction while it builds the circuit that is then cached:
+		// the statement list that contains the store into the cache
+		var missBody ast.Node
+		isCache := func(e ast.Expr) bool {
+			t := dispatch.TypedString(pkgS, e)
+			return strings.HasPrefix(t, "<map[") && strings.HasSuffix(t, "]*Circuit>")
+		}
+		// the outermost block that stores into the cache but does not look it up: the path taken on a miss
+		ast.Inspect(fdS.Body, func(n ast.Node) bool {
+			blk, ok := n.(*ast.BlockStmt)
+			if !ok || missBody != nil {
+				return true
+			}
+			stores, lookups := false, false
+			ast.Inspect(blk, func(m ast.Node) bool {
+				switch t := m.(type) {
+				case *ast.AssignStmt:
+					for _, l := range t.Lhs {
+						if ix, ok := l.(*ast.IndexExpr); ok && isCache(ix.X) {
+							stores = true
+						}
+					}
+					for _, r := range t.Rhs {
+						if ix, ok := ast.Unparen(r).(*ast.IndexExpr); ok && isCache(ix.X) {
+							lookups = true
+						}
+					}
+				}
+				return true
+			})
+			if stores && !lookups {
+				missBody = blk
+				return false
+			}
+			return true
+		})
+		if missBody == nil {
+			run.Undecided("stream-cache-key", "compiler/ssa.Program.Stream/cache-key", "", "the statement that stores a circuit into the cache was not found")
+			return
+		}
+		var off []string
+		for _, r := range instrReads(missBody, "instr", covered) {
+			if strings.HasPrefix(r, "In.[].Type") || strings.HasPrefix(r, "Out.Type") || r == "Op" {
+				off = append(off, r)
+			}
+		}
+		if len(off) > 0 {
+			run.Violate("stream-cache-key", "compiler/ssa.Program.Stream/cache-key", p.Rel(missBody.Pos()), fmt.Sprintf("the circuit that is cached is built from instr.%s, which the cache key (built from instr.%s) does not contain: two instructions that differ only there share one circuit", strings.Join(off, ", instr."), strings.Join(keyPaths, ", instr.")), nil)
+		} else {
+			run.OK("stream-cache-key", "compiler/ssa.Program.Stream/cache-key", p.Rel(missBody.Pos()), "every instruction field the cached circuit is built from is part of the key")
+		}
 	}
 	// distinct builtins ever put into a Builtin instruction
 	builtins := map[string]bool{}
@@ -185,7 +325,7 @@ func C05cache(p *load.Program, run *report.Run) {
 			run.Undecided("stream-cache-key", key, "", "generator body not resolved")
 			continue
 		}
-		reads := nonKeyReads(pkg, body, param)
+		reads := instrReads(body, param, covered)
 		var offending []string
 		for _, r := range reads {
 			if r == "Builtin" && len(builtins) <= 1 {
